@@ -149,7 +149,8 @@ fn powif_pdnum(a: f64, b: &NInt) -> NNum {
 fn pow_big_ints(a: &NInt, b: &NInt) -> NNum {
     match a.pow_maybe_recip(b) {
         (false, r) => NNum::Int(r),
-        (true, r) => NNum::from(BigRational::from(r.into_bigint()).recip()),
+        // 1 / 0^n falls back to float infinity exactly like 1 / 0 does
+        (true, r) => &NNum::from(1) / &NNum::Int(r),
     }
 }
 
@@ -364,7 +365,13 @@ impl NNum {
             }
             (NNum::Int(a), NNum::Float(b)) => powf_pdnum(nint_to_f64_or_inf(a), *b),
 
-            (NNum::Rational(a), NNum::Int(b)) => NNum::from(Pow::pow(&**a, &*b.to_bigint())),
+            (NNum::Rational(a), NNum::Int(b)) => {
+                if a.is_zero() && b.is_negative() {
+                    NNum::Float(f64::INFINITY)
+                } else {
+                    NNum::from(Pow::pow(&**a, &*b.to_bigint()))
+                }
+            }
             (NNum::Rational(a), NNum::Rational(b)) => {
                 powf_pdnum(rational_to_f64_or_inf(a), rational_to_f64_or_inf(b))
             }
